@@ -1,5 +1,5 @@
 (* Extraction of the C04 relocation model (ExtrOcamlBasic only; numbers stay Coq's positive/Z/nat datatypes). *)
 From Coq Require Extraction ExtrOcamlBasic.
-From Verif Require Import Codec.OffsetModel Reloc.RelocModel Reloc.X86Meaning X86.X86Model.
+From Verif Require Import Codec.OffsetModel Reloc.RelocModel Reloc.X86Meaning X86.X86Model Labels.A64Dec.
 Extraction Blacklist List String Int.
-Extraction "reloc.ml" RelocModel.relocate RelocModel.known_rel32 X86Meaning.site_target X86Meaning.branch8_target.
+Extraction "reloc.ml" RelocModel.relocate RelocModel.known_rel32 X86Meaning.site_target X86Meaning.branch8_target A64Dec.a64_site_target.
